@@ -9,7 +9,10 @@
 (*   "geo" / "bf" / "sgeo": Geometric (trivial and Bringmann-Friedrich) and    *)
 (*             StandardGeometric on scripted draw classes.                     *)
 (* An event whose calls did not consume exactly the words of the inverse-      *)
-(* transform design is outside the exact regime and is not judged (guard).     *)
+(* transform design is outside the exact regime and is not judged (guard) -    *)
+(* unless only a minority of the tickets did ("mixed"): that is the one-word   *)
+(* design with restarts it does not have (BINV restarts only beyond x = 110,   *)
+(* HIN never), and is a violation.                                             *)
 EXTENDS DiscreteExact, TLC, Json, IOUtils
 
 Rec == ndJsonDeserialize(IOEnv.TRACE)
@@ -75,7 +78,7 @@ RECURSIVE SgWords(_)
 SgWords(lz) == IF Len(lz) = 0 THEN 0 ELSE IF Head(lz) < 64 THEN 1 ELSE 1 + SgWords(Tail(lz))
 SgeoRule == Ev.out = SgSum(Ev.lz) /\ Ev.words = SgWords(Ev.lz)
 
-Rule == CASE Ev.op = "hist"   -> ~InRegime \/ HistRule
+Rule == CASE Ev.op = "hist"   -> ~Ev.mixed /\ (~InRegime \/ HistRule)
           [] Ev.op = "ticket" -> ~InRegime \/ TicketRule
           [] Ev.op = "zipf0"  -> ~InRegime \/ Zipf0Rule
           [] Ev.op = "geo"    -> GeoRule
